@@ -3,6 +3,6 @@ EXTENDS Protocol, Json, IOUtils
 Complete == Len(hist) = MaxSteps
 Emit == Complete =>
    Serialize(ToJson([family |-> "Protocol", cfg |-> [maxreq |-> MaxReq], input |-> [hist |-> hist],
-                     model_out |-> [pending |-> pending, sessions |-> sessions, lpending |-> lpending]]) \o "\n", IOEnv.VERIF_OUT,
+                     model_out |-> [pending |-> pending, sessions |-> sessions, lpending |-> lpending, answered |-> { m.irt : m \in { x \in net : x.t = "SPLogoutResponse" } }]]) \o "\n", IOEnv.VERIF_OUT,
              [format |-> "TXT", charset |-> "UTF-8", openOptions |-> <<"WRITE", "CREATE", "APPEND">>]).exitValue = 0
 =============================================================================
